@@ -97,6 +97,8 @@ def build(disp, stack, table_name, events, mbs=None, shapes='list'):
     def mw_async(i, kind):
         async def mw(rq, cx, handler):
             events.append(('mw', i, 'in', rq.method, rq.params or None, rq.id, cx is CTX))
+            if shapes == 'suspend':
+                await methods._pause()      # really yields to the loop: the elements of a concurrent batch interleave here
             if kind == 'short':
                 return Response(id=rq.id, result={'short': i})
             req = Request('ok', [i], id=rq.id) if kind == 'rewrite' else rq
@@ -257,6 +259,8 @@ def gen_cases(ctx):
                         yield dict(stack=stack, table=table, request=rq, disp=disp)
                         if n and n <= 2 and rq in ('ok', 'batch', 'boom-n') and table in ('none', 'generic+percode'):
                             yield dict(stack=stack, table=table, request=rq, disp=disp, shapes='iterators')
+                        if n and n <= 3 and disp == 'async' and rq in ('batch', 'batch-n', 'batch-internal') and table in ('none', 'generic+percode', 'replace-generic'):
+                            yield dict(stack=stack, table=table, request=rq, disp=disp, shapes='suspend')
                         if stack.count('pass') >= 2 and n <= 3 and rq in ('ok', 'batch', 'perr-n') and table in ('none', 'same-generic+percode'):
                             yield dict(stack=stack, table=table, request=rq, disp=disp, shapes='shared-mw')
 
@@ -306,6 +310,20 @@ def run_once(case, rec, d, log, table, events, text, stack, tname, rq, disp, mbs
     p = ref.match_answer(answer, want_answer)
     rejected = want_answer is ref.REJECT or rq == 'unparsable'
     kind = 'rejected document' if rejected else ('batch' if isinstance(REQUESTS.get(rq), list) else ('notification' if rq.endswith('-n') else 'call'))
+    if case.get('shapes') == 'suspend':
+        # the elements interleave: compare the event sequence of each element (grouped by the element's id and the method the
+        # outermost middleware saw) instead of one global sequence
+        def per_element(evs):
+            groups = {}
+            for e in evs:
+                key = repr(e[5] if e[0] == 'mw' else e[3])
+                groups.setdefault(key, []).append(e)
+            return groups
+        got_g, want_g = per_element(events), per_element(want_events)
+        # notifications share the key 'None': compare them as sorted multisets
+        same = got_g.keys() == want_g.keys() and all((sorted(map(repr, got_g[k])) == sorted(map(repr, want_g[k]))) if k == 'None' else got_g[k] == want_g[k] for k in got_g)
+        if same:
+            events[:] = want_events
     if events != want_events:
         mw_got = [e for e in events if e[0] == 'mw']
         mw_want = [e for e in want_events if e[0] == 'mw']
@@ -313,7 +331,7 @@ def run_once(case, rec, d, log, table, events, text, stack, tname, rq, disp, mbs
         rec.violation('C12:%s differ from the declared order (%s)%s' % (what, kind, '' if rep == 1 else ' when the request is served a second time'), case, expected=want_events, observed=list(events))
     elif p:
         rec.violation('C12:response differs from what the chain returned (%s):%s' % (kind, norm(p)), case, expected=want_answer, observed=answer, detail=p)
-    elif not ref.calls_eq(log, want_calls):
+    elif not (ref.calls_eq(sorted(log, key=repr), sorted(want_calls, key=repr)) if case.get('shapes') == 'suspend' else ref.calls_eq(log, want_calls)):
         rec.violation('C12:method executions differ (%s)' % kind, case, expected=want_calls, observed=log)
     rec.states += 1
     rec.traces += 1
